@@ -27,6 +27,7 @@ func expandC09(_ *testing.T, seed uint64, tier string) []*core.Plan {
 	p.SetKnob("chunk", r.Pick(0, 0, -1, 1))
 	p.SetKnob("actors", r.Pick(1, 1, 2, 4))
 	p.SetKnob("loose", r.Pick(0, 0, 1))
+	p.SetKnob("park", r.Pick(0, 0, 0, 3, 6))
 	p.Yield = r.Pick(0, 0, 0, 8)
 	// faults: at most a couple per run, most runs none
 	if r.Chance(1, 4) {
@@ -204,6 +205,7 @@ func runC09(t *testing.T, p *core.Plan) *core.Result {
 	ptxt := core.Bubble(t, p.Seed, p.Yield, func() {
 		w = NewWorld(p.Seed, res)
 		w.Chunk = p.Knob("chunk", 0)
+		w.EnablePark(p.Seed, p.Knob("park", 0))
 		r := &cliRun{w: w, res: res, cbErrs: map[int][]error{}}
 		r.sess = &ProbeSession{W: w, Inner: session.NewMemorySession(), FailN: p.Knob("sessfail", 0)}
 		for i := 0; i < p.Knob("actors", 1); i++ {
@@ -399,9 +401,13 @@ func runC09(t *testing.T, p *core.Plan) *core.Result {
 			}
 		}
 		w.Settle()
+		w.StopPark()
+		w.Settle()
 		// liveness while connected: an acknowledgement that reached the client's
 		// socket resolves its future
 		r.judgeLiveAcks()
+		// a connection that has ended leaves no unresolved future behind
+		r.judgeEndedConnections()
 		// the end: everything is closed
 		for _, c := range r.clients {
 			c := c
@@ -440,6 +446,17 @@ func runC09(t *testing.T, p *core.Plan) *core.Result {
 		res.Sample = p.Brief(16)
 	}
 	return res
+}
+
+// lastConnOfClient: the callback event carries the client number; connections
+// and clients are created in lock step, so the client's connection is the
+// latest dial at that moment.
+func lastConnOfClient(connOrder []int, clientN int) map[int]bool {
+	out := map[int]bool{}
+	if len(connOrder) > 0 {
+		out[connOrder[len(connOrder)-1]] = true
+	}
+	return out
 }
 
 // ackFor finds the acknowledgement the client received for a request.
@@ -510,6 +527,31 @@ func finalAck(f *futRec, req packet.Generic, p packet.Generic) bool {
 	return false
 }
 
+// judgeEndedConnections: once a client's connection has ended (the client told
+// the application through the callback, or closed its conn) and the system is
+// quiescent, every future that client handed out must be resolved - without
+// anybody having to call Close.
+func (r *cliRun) judgeEndedConnections() {
+	for n := range r.clients {
+		cn := n + 1
+		ended := len(r.cbErrs[cn]) > 0
+		if !ended {
+			continue
+		}
+		for _, a := range r.actors {
+			if a.busy {
+				return // a call is still in flight: its future may legitimately be young
+			}
+		}
+		for _, f := range r.futs {
+			if f.clientN == cn && !f.resolved {
+				r.res.Violate("C09", "C09.future-unresolved-after-connection-end", f.kind,
+					fmt.Sprintf("client %d reported the end of its connection (%v) and the system is quiescent, but its %s future #%d is still unresolved; only a later Close would cancel it", cn, r.cbErrs[cn][0], f.kind, f.tag))
+			}
+		}
+	}
+}
+
 func (r *cliRun) judgeLiveAcks() {
 	for _, f := range r.futs {
 		if f.resolved || f.kind == "pub0" {
@@ -577,7 +619,7 @@ func (r *cliRun) judge(p *core.Plan) {
 		}
 		ok := false
 		for _, e := range w.Hist {
-			if e.K == EvRecv && e.Err == nil && e.Seq > send.Seq && e.Seq < f.at && e.P != nil && ackMatches(f, send.P, e.P) {
+			if e.K == EvRecv && e.Err == nil && e.C == send.C && e.Seq < f.at && e.P != nil && ackMatches(f, send.P, e.P) {
 				ok = true
 				break
 			}
@@ -593,9 +635,11 @@ func (r *cliRun) judge(p *core.Plan) {
 	}
 	outstanding := map[packet.ID]ost{}
 	saved := map[packet.ID]string{} // id -> payload currently saved in Outgoing
+	lastSaved := map[packet.ID]string{}
 	var connOrder []int
 	connClean := map[int]bool{}
 	resent := map[int]map[packet.ID]string{}
+	ended := map[int]bool{}
 	expectResend := map[int]map[packet.ID]ost{}
 	connacked := map[int]bool{}
 	for _, e := range w.Hist {
@@ -605,6 +649,7 @@ func (r *cliRun) judge(p *core.Plan) {
 			case e.S == "save/1" && e.Err == nil:
 				if q, ok := e.P.(*packet.Publish); ok {
 					saved[q.ID] = string(q.Message.Payload)
+					lastSaved[q.ID] = string(q.Message.Payload)
 				} else if q, ok := e.P.(*packet.Pubrel); ok {
 					saved[q.ID] = "PUBREL"
 				}
@@ -614,17 +659,46 @@ func (r *cliRun) judge(p *core.Plan) {
 				delete(saved, packet.ID(id))
 			case e.S == "reset" && e.Err == nil:
 				saved = map[packet.ID]string{}
+				lastSaved = map[packet.ID]string{}
 				outstanding = map[packet.ID]ost{}
+				// a reset outside Connect is the clean-session teardown of the
+				// current connection: what is written on it afterwards reaches nobody
+				if len(connOrder) > 0 {
+					ended[connOrder[len(connOrder)-1]] = true
+				}
+			}
+		case EvClose:
+			ended[e.C] = true
+		case EvCallback:
+			if e.Err != nil {
+				for cn, isLast := range lastConnOfClient(connOrder, e.C) {
+					if isLast {
+						ended[cn] = true
+					}
+				}
 			}
 		case EvSend:
+			if ended[e.C] {
+				// the connection is over (its clean-session teardown may already have
+				// reset the session): a buffered write on it reaches nobody
+				if _, isConnect := e.P.(*packet.Connect); !isConnect {
+					continue
+				}
+			}
 			switch q := e.P.(type) {
 			case *packet.Connect:
 				connOrder = append(connOrder, e.C)
 				connClean[e.C] = q.CleanSession
 				exp := map[packet.ID]ost{}
 				if !q.CleanSession {
-					for id, o := range outstanding {
-						exp[id] = o
+					// "retransmits everything still recorded": the reference is what
+					// the session holds (as seen through the session probe)
+					for id, v := range saved {
+						if v == "PUBREL" {
+							exp[id] = ost{"PUBREL", ""}
+						} else {
+							exp[id] = ost{"PUBLISH", v}
+						}
 					}
 				}
 				expectResend[e.C] = exp
@@ -634,7 +708,10 @@ func (r *cliRun) judge(p *core.Plan) {
 					break
 				}
 				if !q.Dup {
-					if saved[q.ID] != string(q.Message.Payload) && !sessFault {
+					// the latest save under this id must be this very publish (a spurious
+					// acknowledgement carrying the id may have deleted the record again
+					// between the save and the write; that is the broker's doing)
+					if lastSaved[q.ID] != string(q.Message.Payload) && !sessFault {
 						res.Violate("C09", "C09.store-before-send", "publish", fmt.Sprintf("%s entered Send at event %d but the session does not hold it (holds %q under that id)", pktBrief(q), e.Seq, saved[q.ID]))
 					}
 					outstanding[q.ID] = ost{"PUBLISH", string(q.Message.Payload)}
@@ -656,7 +733,7 @@ func (r *cliRun) judge(p *core.Plan) {
 						resent[e.C][q.ID] = "PUBREL"
 					}
 				}
-				if saved[q.ID] != "PUBREL" && !sessFault {
+				if o, ok := outstanding[q.ID]; ok && o.kind == "PUBREL" && saved[q.ID] != "PUBREL" && !sessFault {
 					res.Violate("C09", "C09.store-before-send", "pubrel", fmt.Sprintf("PUBREL(%d) entered Send but the session holds %q under that id", q.ID, saved[q.ID]))
 				}
 			}
